@@ -189,30 +189,68 @@ pub enum UAir {
     Fib,
     /// repo tests' `MulAir` with preprocessed columns
     Mul { degree: u64, rows: usize, reps: usize },
+    /// two periodic columns (periods 2 and 4): y = x·p0 + p1 on every row
+    Periodic,
+}
+
+pub const PERIODIC_COLS: [&[u64]; 2] = [&[3, 5], &[1, 2, 3, 4]];
+
+fn eval_periodic<AB: AirBuilder>(builder: &mut AB) {
+    let main = builder.main();
+    let l = main.current_slice();
+    let (x, y) = (l[0].clone(), l[1].clone());
+    let p = builder.periodic_values();
+    let (p0, p1): (AB::Expr, AB::Expr) = (p[0].clone().into(), p[1].clone().into());
+    let x: AB::Expr = x.into();
+    let y: AB::Expr = y.into();
+    builder.assert_zero(y - x * p0 - p1);
+}
+
+pub fn periodic_trace<F: Field>(rows: usize) -> RowMajorMatrix<F> {
+    let mut v = F::zero_vec(rows * 2);
+    for r in 0..rows {
+        let x = F::from_usize(r + 1);
+        v[2 * r] = x;
+        v[2 * r + 1] = x * F::from_u64(PERIODIC_COLS[0][r % 2]) + F::from_u64(PERIODIC_COLS[1][r % 4]);
+    }
+    RowMajorMatrix::new(v, 2)
 }
 
 impl<F: Field> BaseAir<F> for UAir {
+    fn num_periodic_columns(&self) -> usize {
+        match self {
+            UAir::Periodic => 2,
+            _ => 0,
+        }
+    }
+    fn periodic_columns(&self) -> Vec<Vec<F>> {
+        match self {
+            UAir::Periodic => PERIODIC_COLS.iter().map(|c| c.iter().map(|v| F::from_u64(*v)).collect()).collect(),
+            _ => vec![],
+        }
+    }
+
     fn width(&self) -> usize {
         match self {
-            UAir::Fib => 2,
+            UAir::Fib | UAir::Periodic => 2,
             UAir::Mul { reps, .. } => *reps,
         }
     }
     fn num_public_values(&self) -> usize {
         match self {
             UAir::Fib => 3,
-            UAir::Mul { .. } => 0,
+            UAir::Mul { .. } | UAir::Periodic => 0,
         }
     }
     fn preprocessed_width(&self) -> usize {
         match self {
-            UAir::Fib => 0,
+            UAir::Fib | UAir::Periodic => 0,
             UAir::Mul { reps, .. } => reps * 2,
         }
     }
     fn preprocessed_trace(&self) -> Option<RowMajorMatrix<F>> {
         match self {
-            UAir::Fib => None,
+            UAir::Fib | UAir::Periodic => None,
             UAir::Mul { degree, rows, reps } => Some(mul_traces::<F>(*degree, *rows, *reps).1),
         }
     }
@@ -226,6 +264,7 @@ where
         match self {
             UAir::Fib => eval_fib(builder),
             UAir::Mul { degree, reps, .. } => eval_mul(builder, *degree, *reps),
+            UAir::Periodic => eval_periodic(builder),
         }
     }
 }
@@ -363,5 +402,6 @@ pub fn uair_instance<F: PrimeField64>(air: &UAir, rows: usize) -> (RowMajorMatri
             vec![F::ZERO, F::ONE, F::from_u64(fib_n(rows))],
         ),
         UAir::Mul { degree, rows: r, reps } => (mul_traces::<F>(*degree, *r, *reps).0, vec![]),
+        UAir::Periodic => (periodic_trace::<F>(rows), vec![]),
     }
 }
